@@ -7,6 +7,7 @@ package main
 
 import (
 	"fmt"
+	"os"
 	"go/types"
 	"sort"
 	"strings"
@@ -74,8 +75,8 @@ func ruleEOFLine(w *World, r *RuleResult) {
 			errF = f.Name()
 		}
 	}
-	if linesF == "" || errF == "" {
-		r.undecided("fields", "-", "parser fields (line list, error) not resolved")
+	if linesF == "" {
+		r.undecided("fields", "-", "parser line list not resolved")
 		return
 	}
 	tt := tokenTypes(w)
@@ -93,6 +94,12 @@ func ruleEOFLine(w *World, r *RuleResult) {
 		for _, e := range p.Events {
 			if e.Kind == "store" && e.LV.Op == "sel" && e.LV.S == errF && e.Val.Op != "nil" {
 				return true, w.Pos(instrPosE(&e))
+			}
+		}
+		// or the state hands the error back to the driver
+		if p.End == "ret" && len(p.Ret) > 1 && typeName(p.Ret[len(p.Ret)-1].Ty) != "" && p.Ret[len(p.Ret)-1].Op != "nil" && len(p.Events) > 0 {
+			if last := p.Ret[len(p.Ret)-1]; last.Op == "call" || last.Op == "ext" || last.Op == "iface" {
+				return true, w.Pos(instrPosE(&p.Events[len(p.Events)-1]))
 			}
 		}
 		return false, ""
@@ -209,7 +216,7 @@ func ruleForEOF(w *World, r *RuleResult) {
 		}
 		found = true
 		for _, p := range ps {
-			if p.End != "ret" || len(p.Ret) != 1 || p.Ret[0].Op != "nil" {
+			if p.End != "ret" || len(p.Ret) < 1 || p.Ret[0].Op != "nil" {
 				continue
 			}
 			// stop without having entered the expansion: only on an error token
@@ -345,10 +352,10 @@ func ruleScanTotal(w *World, r *RuleResult) {
 			continue
 		}
 		for _, p := range ps {
-			if p.End != "ret" || len(p.Ret) != 1 || p.Ret[0].Op != "nil" {
+			if p.End != "ret" || len(p.Ret) < 1 || !m.isStop(p.Ret[0]) {
 				continue
 			}
-			setsErr := false
+			setsErr := len(p.Ret) > 1 && p.Ret[len(p.Ret)-1].Op != "nil" // the error may be returned instead of stored
 			for _, e := range p.Events {
 				if e.Kind == "store" && e.LV.Op == "sel" && e.LV.S == errF && e.Val.Op != "nil" {
 					setsErr = true
@@ -376,11 +383,14 @@ func ruleScanTotal(w *World, r *RuleResult) {
 			good := setsErr || atEnd || word == "end" || (lastV >= 0 && last == inv)
 			key := s.Name() + "/stop"
 			if word != "" {
-				key += "-at-" + word
+				key = "stop-at-" + word // named by the keyword, not by the state function: the same stop under any name
 			}
 			pos := w.Pos(s.Pos())
 			if len(p.Conds) > 0 {
 				pos = w.Pos(p.Conds[len(p.Conds)-1].Pos)
+			}
+			if !good && os.Getenv("GMARSLINT_DEBUG") != "" {
+				fmt.Fprintln(os.Stderr, "SCAN.total debug:", s.Name(), "ret", p.Ret[0].Key(), "sets", sets, "last", last, "lastV", lastV, "blocks", p.Blocks)
 			}
 			d.add(good, key, pos, "the scan stops at the end of the input, an error or END", fmt.Sprintf("the symbol scan stops at '%s' before the end of the input: an EQU placed after that point is invisible to the expression being expanded (e.g. 'i for N … rof' followed by 'N equ 2' fails although EQU placement must not matter)", word))
 		}
